@@ -56,8 +56,9 @@ ValidName(cs) ==
   /\ cs[1] \in {"Letter", "Underscore"}
   /\ \A k \in 2..Len(cs) : cs[k] \in {"Letter", "Digit", "Underscore", "Dot"}
 
-PathKinds == {"Str", "PathLike", "Empty", "StrWithTab", "StrWithNewline", "StrWithEsc", "Int", "None"}
-ValidPath(k) == k \in {"Str", "PathLike"}
+PathKinds == {"Str", "PathLike", "Unicode", "Empty", "StrWithTab", "StrWithNewline", "StrWithEsc", "StrWithNul", "StrWithDel",
+              "StrWithC1", "PathLikeWithC1", "Int", "None"}
+ValidPath(k) == k \in {"Str", "PathLike", "Unicode"}
 
 (* map(): one target per item; names template_<i> / <string>_<i> / f(i)    *)
 MapNames(mode, base, cnt) == [i \in 1..cnt |-> IF mode = "func" THEN "custom" \o ToString(i - 1)
